@@ -35,6 +35,8 @@ typedef int64_t (*wide_fn)(I10, I10, I10, I10, I10, I10, I10);   // 70 integer p
 #define V10(a, b) a[b], a[b + 1], a[b + 2], a[b + 3], a[b + 4], a[b + 5], a[b + 6], a[b + 7], a[b + 8], a[b + 9]
 typedef int64_t (*universal_fn)(int64_t, int64_t, int64_t, int64_t, int64_t, int64_t, int64_t, int64_t, double, double, double, double, double, double, double, double);
 
+#include "../sim/sysvcall.hpp"
+
 // ---------------------------------------------------------------------------------------------- fault handler
 static void crash_handler(int sig, siginfo_t *si, void *uc) {
   ucontext_t *u = (ucontext_t *) uc; void *rip = (void *) u->uc_mcontext.gregs[REG_RIP];
@@ -112,6 +114,12 @@ struct LcSim : Harness {
     }
     return (int64_t) ((uint64_t) v * 3 + (uint64_t) tag);
   }
+  // external with parameters of mixed kinds (two integers, two long doubles beyond the registers): see prog::extm_value
+  static int64_t extm_c(int64_t t, float x, long double y, int n, double z, unsigned char b, long double w, int64_t s7, float x2, short h, int64_t p, unsigned q, int64_t last) {
+    LcSim *s = g_self; s->ext_log.push_back({200, t}); s->clock_ticks++; s->C->count("ext_mixed_kinds_called");
+    return (int64_t) ((uint64_t) t * 3 + (uint64_t) (int64_t) x * 5 + (uint64_t) (int64_t) y * 7 + (uint64_t) (int64_t) n * 11 + (uint64_t) (int64_t) z * 13 + (uint64_t) b * 17 + (uint64_t) (int64_t) w * 19 + (uint64_t) s7 * 23
+                      + (uint64_t) (int64_t) x2 * 29 + (uint64_t) (int64_t) h * 31 + (uint64_t) p * 37 + (uint64_t) q * 41 + (uint64_t) last * 43);
+  }
   // external with many integer arguments: folds the first n
   static int64_t extn_c(int64_t n, int64_t a1, int64_t a2, int64_t a3, int64_t a4, int64_t a5, int64_t a6, int64_t a7, int64_t a8, int64_t a9, int64_t a10, int64_t a11, int64_t a12, int64_t a13, int64_t a14, int64_t a15, int64_t a16, int64_t a17, int64_t a18, int64_t a19, int64_t a20,
                         int64_t b1, int64_t b2, int64_t b3, int64_t b4, int64_t b5, int64_t b6, int64_t b7, int64_t b8, int64_t b9, int64_t b10, int64_t b11, int64_t b12, int64_t b13, int64_t b14, int64_t b15, int64_t b16, int64_t b17, int64_t b18, int64_t b19, int64_t b20,
@@ -140,6 +148,7 @@ struct LcSim : Harness {
     LcSim *s = g_self; s->resolver_asked.push_back(name); s->C->count("resolver_consulted");
     if (!strcmp(name, "ext")) return (void *) ext_c;
     if (!strcmp(name, "extn")) return (void *) extn_c;
+    if (!strcmp(name, "extm")) return (void *) extm_c;
     auto it = s->resolver_k.find(name); if (it == s->resolver_k.end()) return nullptr;
     if (it->second < 0) {  // the resolver itself creates and loads a module that defines the name, and answers with the function's address
       size_t mi = (size_t) (-it->second - 1); if (mi >= s->mods.size()) return nullptr;
@@ -409,7 +418,7 @@ struct LcSim : Harness {
   void do_link(const Json &op, Outcome &out) {
     int iface = (int) (op.size() > 1 ? op[1].num() : 1) % 5; bool use_resolver = op.size() > 2 && op[2].num() != 0;
     if ((iface >= 2) && !gen_on) { phase("MIR_gen_init"); MIR_gen_init(ctx); gen_on = true; MIR_gen_set_optimize_level(ctx, (unsigned) opt_level); }
-    if (!ext_loaded && !use_resolver && mode != "C13") { MIR_load_external(ctx, "ext", (void *) ext_c); MIR_load_external(ctx, "extn", (void *) extn_c); ext_loaded = true; }
+    if (!ext_loaded && !use_resolver && mode != "C13") { MIR_load_external(ctx, "ext", (void *) ext_c); MIR_load_external(ctx, "extn", (void *) extn_c); MIR_load_external(ctx, "extm", (void *) extm_c); ext_loaded = true; }
     // model: bind every import of every pending module
     expect_error = -1; std::vector<std::pair<int, std::string>> newly; std::vector<int> sim_loaded; bool dontcare = false;
     for (size_t pi = 0; pi < pending.size() && expect_error < 0; pi++) { int mi = pending[pi]; for (auto &n : imports_of((size_t) mi)) {
@@ -552,17 +561,22 @@ struct LcSim : Harness {
     }
     ext_log.clear(); ext_depth = 0; int64_t got;
     phase(interp ? "MIR_interp" : "call through address", n + fmt(" (iface %d, opt %d)", iface, opt_level));
+    std::string ps = prog::ps_of(def); char rt = prog::rt_of(def); bool typed = def.has("ps") || def.has("rt");
+    if (typed) C->count("typed_signature_entered");
+    for (auto d : model.entered) { std::string q = prog::ps_of(*d); int ni = 0, nf = 0, words = 0; for (char c : q) { if (c == 'l') { if (words & 1) { C->count("ld_stack_arg_after_odd_words_entered"); break; } words += 2; } else if (prog::int_kind(c)) { if (++ni > 6) words++; } else if (++nf > 8) words++; } }
     if (interp) {
-      MIR_val_t res, vals[80]; memset(vals, 0, sizeof vals); for (int i = 0; i < na; i++) vals[i].i = args[(size_t) i]; for (int i = 0; i < nd; i++) vals[na + i].d = 2.0 + i;
+      MIR_val_t res, vals[80]; memset(vals, 0, sizeof vals); memset(&res, 0, sizeof res);
+      { int ai = 0, di = 0, k = 0; for (char c : ps) { if (prog::int_kind(c)) vals[k++].i = args[(size_t) ai++]; else if (c == 'd') vals[k++].d = 2.0 + di++; else if (c == 'f') vals[k++].f = 2.0f + (float) di++; else vals[k++].ld = 2.0L + di++; } }
       if (!(op.size() > 3 && op[3].num() != 0)) MIR_interp_arr(ctx, f->item, &res, (size_t) (na + nd), vals);
       else { C->count("interp_variadic_entry"); MIR_interp(ctx, f->item, &res, (size_t) (na + nd), V10(vals, 0), V10(vals, 10), V10(vals, 20), V10(vals, 30), V10(vals, 40), V10(vals, 50), V10(vals, 60), V10(vals, 70)); }  /* both entry points (they size the argument buffer separately) */
-      got = res.i; f->interp_runs++; C->count("interp_runs");
+      got = rt == 'd' ? (int64_t) res.d : rt == 'f' ? (int64_t) res.f : rt == 'l' ? (int64_t) res.ld : res.i; f->interp_runs++; C->count("interp_runs");
       if (f->generated) C->count("interp_after_generation");
     } else {
       int64_t a[70] = {0}; for (int i = 0; i < na && i < 70; i++) a[i] = args[(size_t) i];
       void *addr = f->item->addr;
       if (f->addr_seen && f->addr_seen != addr) { out.fail("public_address_changed", "call", fmt("public address of %s changed from %p to %p", n.c_str(), f->addr_seen, addr)); return; }
-      if (na > 8) { got = ((wide_fn) addr)(V10(a, 0), V10(a, 10), V10(a, 20), V10(a, 30), V10(a, 40), V10(a, 50), V10(a, 60)); C->count("wide_function_called"); }
+      if (typed || (clock_ticks & 3) == 3) { got = call_typed(addr, ps, rt, a); }
+      else if (na > 8) { got = ((wide_fn) addr)(V10(a, 0), V10(a, 10), V10(a, 20), V10(a, 30), V10(a, 40), V10(a, 50), V10(a, 60)); C->count("wide_function_called"); }
       else got = ((universal_fn) addr)(a[0], a[1], a[2], a[3], a[4], a[5], a[6], a[7], 2.0, 3.0, 4.0, 5.0, 6.0, 7.0, 8.0, 9.0);
       f->addr_calls++; C->count("address_calls");
       if (iface == 3 && f->addr_calls == 1) C->count("gen_lazy_on_first_call");
@@ -668,7 +682,7 @@ struct LcSim : Harness {
     bool big = r.chance(1, 6);   // large bodies: code that spans pages, many switch tables (absolute-address relocations)
     if (big) { go.body = (int) r.range(20, 70); go.nfuncs = (int) r.range(2, 5); }
     // swarm: feature subset per run
-    go.lref = r.chance(1, 2); go.jt = r.chance(1, 2); go.sw = r.chance(2, 3); go.icall = r.chance(1, 2); go.ext = r.chance(2, 3); go.mem = r.chance(1, 2); go.loops = r.chance(2, 3); go.doubles = r.chance(1, 3); go.recursion = r.chance(1, 2); go.extn = r.chance(1, 4); go.wide = r.chance(1, 8);
+    go.lref = r.chance(1, 2); go.jt = r.chance(1, 2); go.sw = r.chance(2, 3); go.icall = r.chance(1, 2); go.ext = r.chance(2, 3); go.mem = r.chance(1, 2); go.loops = r.chance(2, 3); go.doubles = r.chance(1, 3); go.recursion = r.chance(1, 2); go.extn = r.chance(1, 4); go.wide = r.chance(1, 8); go.typed = r.chance(1, 3); go.extm = r.chance(1, 4);
     if (big) { go.sw = true; go.sw_weight = 30; go.recursion = false; }
     go.blocked = r.coin();
     prog::Generator g(r, go); Json prog = g.program(); prog::protect_fuel(prog);
@@ -742,7 +756,7 @@ struct LcSim : Harness {
     // optional re-entry of MIR from the external
     if (go.ext && r.chance(1, 2)) {
       Json re = Json::object();
-      for (auto &mo : prog.at("mods").a) for (auto &f : mo.at("funcs").a) { bool leaf = true; prog::walk(f.at("body"), [&](const Json &st) { if (st[0].s == "call" || st[0].s == "icall" || st[0].s == "ext" || st[0].s == "jt" || st[0].s == "lt" || st[0].s == "ld" || st[0].s == "extn") leaf = false; }); if (leaf && f.geti("na") >= 2 && re.size() < 2) re.set(std::to_string(1 + (int) re.size() * 2), f.gets("name")); }
+      for (auto &mo : prog.at("mods").a) for (auto &f : mo.at("funcs").a) { bool leaf = true; prog::walk(f.at("body"), [&](const Json &st) { if (st[0].s == "call" || st[0].s == "icall" || st[0].s == "ext" || st[0].s == "jt" || st[0].s == "lt" || st[0].s == "ld" || st[0].s == "extn" || st[0].s == "extm") leaf = false; }); if (leaf && f.geti("na") >= 2 && !f.has("ps") && !f.has("rt") && re.size() < 2) re.set(std::to_string(1 + (int) re.size() * 2), f.gets("name")); }
       if (re.size()) kn.set("reenter", re);
     }
     { Rng rv(mix2(r.next(), 0x7661726961646963ull)); for (auto &op : ops.a) if (op[0].s == "interp") op.push((int) rv.coin()); }  // 1: enter through the variadic MIR_interp, 0: MIR_interp_arr
